@@ -1,7 +1,7 @@
 """C19 - stylesheet source maps point each output token at its source token (structural half)."""
 from rules import csspacks as cp
 
-RULE = 'C19.col: every append advances utf16_len by the UTF-16 length of exactly the appended slice (or 1 for one ASCII character); append_token registers (generated column, token line, token column) after the separator and before the token text; only the appenders write these fields. C19.src: rewritten tokens carry the original token as name and position; synthesised closing brackets point at their opening bracket; positions are taken before the token is consumed and are 0-based UTF-16.'
+RULE = 'C19.src/sampled-at-token: a token position is sampled directly before a one-token read, comments are skipped by re-sampling; C19.step: skipping a comment consumes nothing else; C19.src/rpx-name: the name token is rebuilt from the matched token own fields. C19.col: every append advances utf16_len by the UTF-16 length of exactly the appended slice (or 1 for one ASCII character); append_token registers (generated column, token line, token column) after the separator and before the token text; only the appenders write these fields. C19.src: rewritten tokens carry the original token as name and position; synthesised closing brackets point at their opening bracket; positions are taken before the token is consumed and are 0-based UTF-16.'
 EXPLANATION = ("The token-dispatch loops of the stylesheet compiler are located by role in the expanded syntax tree and their arms, "
                "flags and field writers (MIR) are checked against the rule; no stylesheet is ever transformed.")
 ASSUMPTIONS = ["cssparser tokenises and serialises per CSS Syntax 3", "refs/css_refs.json lists rule-bearing at-rules and math functions correctly",
@@ -14,4 +14,5 @@ def run(ctx):
         return obs
     obs += cp.sourcemap_rules(ctx, 'C19')
     obs += cp.sep_rule(ctx, 'C19')
+    obs += cp.step_rules(ctx, 'C19')
     return obs
